@@ -22,7 +22,7 @@ BUDGET = {"case_timeout": {"quick": 300, "thorough": 1800}}
 
 BOXES = splineref.BOXES + [[-1000.0, 1000.0, -1000.0, 1000.0], [0.0, 4.0, 0.0, 1.0], [-1.0, 3.0, 0.0, 1.0]]
 TAILS = [0.5, 1.0, 3.0, 30.0, 1e3]
-PSCALES = ["zero", 0.3, 1.0, 3.0, "extreme"]
+PSCALES = ["zero", 0.3, 1.0, 3.0, "extreme", "huge"]
 
 
 def gen_cases(tier, seed):
@@ -34,13 +34,15 @@ def gen_cases(tier, seed):
                 for pi, ps in enumerate(PSCALES):
                     K = [1, 2, 3, 5, 8, 10][(bi + pi + rep) % 6]
                     cases.append({"family": fam, "box": bx, "bins": K, "pscale": ps,
-                                  "world": "f64" if (bi + pi + rep) % 4 or ps in (3.0, "extreme") else "f32",
+                                  "world": ("f32" if (bi + rep) % 2 else "f64") if ps == "huge" else
+                                  "f64" if (bi + pi + rep) % 4 or ps in (3.0, "extreme") else "f32",
                                   "seed": env.subseed(seed, "c09", fam, bi, pi, rep), "tier_": tier, "cost": 1})
             for ti, B in enumerate(TAILS):
                 for pi, ps in enumerate(PSCALES):
                     K = [2, 3, 5, 8, 10, 4][(ti + pi + rep) % 6]
                     cases.append({"family": fam, "box": None, "B": B, "bins": K, "pscale": ps,
-                                  "world": "f64" if (ti + pi + rep) % 4 or ps in (3.0, "extreme") else "f32",
+                                  "world": ("f32" if (ti + rep) % 2 else "f64") if ps == "huge" else
+                                  "f64" if (ti + pi + rep) % 4 or ps in (3.0, "extreme") else "f32",
                                   "seed": env.subseed(seed, "c09t", fam, ti, pi, rep), "tier_": tier, "cost": 1})
     return cases
 
@@ -55,6 +57,24 @@ def params_for(fam, n, K, ps, g, tails):
             alt[::2] = -1
             sign = torch.where(torch.rand(n, 1, generator=g) < 0.5, -1.0, 1.0)
             p[k] = p[k] + 15.0 * alt * sign
+        return p
+    if ps == "huge":
+        # knot-derivative parameters far outside the range where exp() is representable in float32 (88.7) - in float64
+        # (709.8) for half of the rows: a hand-written softplus / sigmoid overflows where the library function does not.
+        # Only the derivative parameters: huge *softmax* logits (widths, heights, pdf) make bins underflow to exactly zero
+        # mass, where no floating-point evaluation can be a bijection (the linear spline has no floor at all).
+        p = splineref.random_params(fam, n, K, 1.0, g, tails=tails)
+        for k in p:
+            if "deriv" in k:
+                alt = torch.ones(p[k].shape[-1])
+                alt[::2] = -1
+                sign = torch.where(torch.rand(n, 1, generator=g) < 0.5, -1.0, 1.0)
+                mag = torch.where(torch.rand(n, 1, generator=g) < 0.5, 120.0, 800.0)
+                if fam == "cubic":
+                    # the cubic end slopes are sigmoid(u) * 3 * chord slope with no floor: sigmoid(-120) is exactly 0 in
+                    # float32 and the end-point derivative vanishes (saturated, not a bijection); only +huge is meaningful
+                    alt, sign = torch.ones_like(alt), torch.ones_like(sign)
+                p[k] = p[k] + mag * alt * sign
         return p
     return splineref.random_params(fam, n, K, float(ps), g, tails=tails)
 
